@@ -99,79 +99,3 @@ theorem runTask_spec (progs : Nat → Prog) (t : Task) (hs : List Handler) (st :
         · exact Or.inr ⟨hd, by simp, hr, ha, by rw [hc, hlog.1]⟩
 
 end MpfVerif.QueueEvent
-
-namespace MpfVerif.EventBus
-
-/-- reference: what a relay event's kwargs become — the left fold of the handlers' returned dicts -/
-def relayFold (progs : Nat → Prog) : List Handler → Kw → Kw
-  | [], kw => kw
-  | h :: hs, kw =>
-    if !condHolds h.cond (kwUpdate kw h.kw) then relayFold progs hs kw
-    else match (progs h.pid).ret with
-      | .dict d => relayFold progs hs (kwUpdate kw (ofInts d))
-      | _ => relayFold progs hs kw
-
-/-- reference: the handler calls of a relay event — each handler sees the fold so far merged with its own kwargs -/
-def relayCalls (progs : Nat → Prog) (ev sn : Nat) : List Handler → Kw → List Obs
-  | [], _ => []
-  | h :: hs, kw =>
-    if !condHolds h.cond (kwUpdate kw h.kw) then relayCalls progs ev sn hs kw
-    else Obs.call h.key ev sn (kwUpdate kw h.kw) :: (match (progs h.pid).ret with
-      | .dict d => relayCalls progs ev sn hs (kwUpdate kw (ofInts d))
-      | _ => relayCalls progs ev sn hs kw)
-
-theorem runHandlers_relay (progs : Nat → Prog) (ev sn : Nat) (hs : List Handler) (c : Core) (kw : Kw) (res : Ret) :
-    (runHandlers progs ev sn .relay hs c kw res).1.log = c.log ++ relayCalls progs ev sn hs kw ∧
-    (runHandlers progs ev sn .relay hs c kw res).2.1 = relayFold progs hs kw := by
-  induction hs generalizing c kw res with
-  | nil => simp [runHandlers, relayCalls, relayFold]
-  | cons h hs ih =>
-    simp only [runHandlers, relayCalls, relayFold]
-    by_cases hc : condHolds h.cond (kwUpdate kw h.kw) = true
-    · simp only [hc, Bool.not_true, Bool.false_eq_true, if_false]
-      have hf := runActs_frame { c with log := c.log ++ [Obs.call h.key ev sn (kwUpdate kw h.kw)] } (progs h.pid).acts
-      rw [if_neg (by simp)]
-      cases hr : (progs h.pid).ret <;> simp only [] <;>
-        (refine ⟨?_, (ih _ _ _).2⟩; rw [(ih _ _ _).1, hf.2]; simp)
-    · have hc' : condHolds h.cond (kwUpdate kw h.kw) = false := by simpa using hc
-      simp only [hc', Bool.not_false, if_true]
-      exact ih c kw res
-
-/-- reference for boolean events: calls up to and including the first handler returning `False` -/
-def boolCalls (progs : Nat → Prog) (ev sn : Nat) (kw : Kw) : List Handler → List Obs
-  | [] => []
-  | h :: hs =>
-    if !condHolds h.cond (kwUpdate kw h.kw) then boolCalls progs ev sn kw hs
-    else Obs.call h.key ev sn (kwUpdate kw h.kw) ::
-      (if (progs h.pid).ret = .bool false then [] else boolCalls progs ev sn kw hs)
-
-/-- does some called handler return `False`? -/
-def boolStops (progs : Nat → Prog) (kw : Kw) : List Handler → Bool
-  | [] => false
-  | h :: hs =>
-    if !condHolds h.cond (kwUpdate kw h.kw) then boolStops progs kw hs
-    else if (progs h.pid).ret = .bool false then true else boolStops progs kw hs
-
-theorem runHandlers_boolean (progs : Nat → Prog) (ev sn : Nat) (hs : List Handler) (c : Core) (kw : Kw) (res : Ret) :
-    (runHandlers progs ev sn .boolean hs c kw res).1.log = c.log ++ boolCalls progs ev sn kw hs ∧
-    (runHandlers progs ev sn .boolean hs c kw res).2.1 =
-      (if boolStops progs kw hs then kwSet kw evResult (.bool false) else kw) := by
-  induction hs generalizing c res with
-  | nil => simp [runHandlers, boolCalls, boolStops]
-  | cons h hs ih =>
-    simp only [runHandlers, boolCalls, boolStops]
-    by_cases hc : condHolds h.cond (kwUpdate kw h.kw) = true
-    · simp only [hc, Bool.not_true, Bool.false_eq_true, if_false]
-      have hf := runActs_frame { c with log := c.log ++ [Obs.call h.key ev sn (kwUpdate kw h.kw)] } (progs h.pid).acts
-      by_cases hr : (progs h.pid).ret = .bool false
-      · rw [if_pos ⟨trivial, hr⟩]
-        simp [hr, hf.2]
-      · rw [if_neg (fun hh => hr hh.2)]
-        simp only [hr, if_false]
-        refine ⟨?_, (ih _ _).2⟩
-        rw [(ih _ _).1, hf.2]; simp
-    · have hc' : condHolds h.cond (kwUpdate kw h.kw) = false := by simpa using hc
-      simp only [hc', Bool.not_false, if_true]
-      exact ih c res
-
-end MpfVerif.EventBus
